@@ -12,3 +12,18 @@ package aggregate
 //@ modifies world(ctx)
 //@ ensures [transparent] result == callres("OnRecvPacket", 0, 1)
 //@ ensures [app-called-once-first] ncalls("OnRecvPacket") >= 1 && ncalls("OnRecvPacket") <= 2
+
+// ---- genesis round trip of the aggregate module (C13): export reads params and every pair; import writes the params
+// and indexes every pair under its id, each of its denominations and its contract address (the registry invariant of C12)
+// verif:func ExportGenesis
+//@ ensures [params] result.Params == callres("GetParams", 0)
+//@ ensures [pairs]  result.TokenPairs == callres("GetAllTokenPairs", 0)
+
+// verif:func InitGenesis
+//@ modifies world(ctx)
+//@ callsite SetParams [params-as-exported] params == data.Params
+//@ callsite SetTokenPair [pair-as-exported] tokenPair == pair
+//@ callsite SetDenomsMap [denoms-indexed] denoms == pair.Denoms && id == pair.GetID()
+//@ callsite SetERC20Map [address-indexed] erc20 == pair.GetERC20Contract() && id == pair.GetID()
+//@ loop 1 continue [each-pair-once] ncalls("SetTokenPair") == 1 && ncalls("SetDenomsMap") == 1 && ncalls("SetERC20Map") == 1
+//@ ensures [everything-imported] loopCompleted(1)
